@@ -76,6 +76,12 @@ fn shrink(t: &[String]) -> Vec<Vec<String>> {
 fn gen(rng: &mut Rng, tier: Tier) -> Vec<Case> {
     let mut out = vec![];
     let (nb, nr) = match tier { Tier::Quick => (500, 150), Tier::Thorough => (8000, 2500) };
+    if tier == Tier::Thorough {
+        // exhaustive small scope: all sequences of <= 3 non-empty intervals over 0..=4, several histories with merges
+        for h in exhaustive_hists(3, 4, false, true) {
+            out.push(Case::new("exhaustive", enc(&C { h, qs: all_queries(4), probe: (2, 3, 4242) })));
+        }
+    }
     for i in 0..(nb + nr) {
         let small = i < nb;
         let n = if small { if i % 25 == 0 { 0 } else { rng.range(1, 7) as usize } } else { rng.range(5, 100) as usize };
@@ -100,7 +106,7 @@ fn gen(rng: &mut Rng, tier: Tier) -> Vec<Case> {
 pub fn prop() -> PropDef {
     PropDef {
         id: "C18",
-        rule: "corpus, then histories new/insert*/merge_overlaps/set_cov in any order and number over non-empty intervals (small: 0-7 intervals + book-ended chains and a spanning interval, coordinates 0..60; large: 5-100 intervals, offsets up to u64::MAX-1e5); observed: iter, cov, find/count/seek for queries with endpoints in {e-1,e,e+1} ∪ {0}; then one more merge_overlaps (iter, cov), a second one (idempotence), then the insert of a probe interval into the merged set followed by find/count. Non-trivial: two supplied intervals touch/overlap/nest and the history contains a merge. Distinct = distinct input token sequence.",
+        rule: "corpus, then histories new/insert*/merge_overlaps/set_cov in any order and number over non-empty intervals (small: 0-7 intervals + book-ended chains and a spanning interval, coordinates 0..60; large: 5-100 intervals, offsets up to u64::MAX-1e5); observed: iter, cov, find/count/seek for queries with endpoints in {e-1,e,e+1} ∪ {0}; then one more merge_overlaps (iter, cov), a second one (idempotence), then the insert of a probe interval into the merged set followed by find/count. Non-trivial: two supplied intervals touch/overlap/nest and the history contains a merge. Thorough adds the exhaustive small scope: every sequence of <= 3 non-empty intervals over 0..=4 in several histories with merges, every query. Distinct = distinct input token sequence.",
         observable: "Lapper::{iter,cov,find,count,seek} before and after merge_overlaps, merge twice, insert after merge",
         gen, exec, shrink, child: None,
     }
